@@ -45,7 +45,7 @@ pub fn base_streams(seed: u64, count: usize) -> Vec<Base> {
                 a.samples[2 * t + 1] = (i64::from(a.samples[2 * t]) + rng.range(-3, 3)).clamp(i64::from(gen::smin(bps)), i64::from(gen::smax(bps))) as i32;
             }
         }
-        let mut cfg = gen::gen_config(&mut rng, &ConfigOpts { multithread: Some(false), min_max_parameter: 8 });
+        let mut cfg = gen::gen_config(&mut rng, &ConfigOpts { multithread: Some(false), min_max_parameter: 8, no_experimental: false });
         match k % 4 {
             0 => {
                 cfg.subframe_coding.use_lpc = true;
